@@ -160,3 +160,115 @@ def get_default_unit(prop):
 
 
 UNITS = [set_defaults_unit("C04"), get_default_unit("C04")]
+
+
+# ------------------------------------------------------------------------------------- default_config_files (setter) / env_prefix (setter) / get_config_files
+def dcfs_setup(ctx):
+    given = ["None", "empty-list", "list-of-str", "list-with-a-PathLike", "a-single-str", "tuple-of-str", "list-with-an-int"][ctx.choose(7, "value")]
+    had_group = ctx.choose(2, "help-group-already-there") == 1
+    ctx.classes.add("PathLike", [])
+    plike = Rec("PathLike", attrs={"fs": "etc/app.yaml"})
+    value = {"None": None, "empty-list": [], "list-of-str": ["a.yaml", "conf.d/*.yaml"], "list-with-a-PathLike": ["a.yaml", plike], "a-single-str": "a.yaml", "tuple-of-str": ("a.yaml",), "list-with-an-int": ["a.yaml", 3]}[given]
+    g_user, g_opts = Rec("group positional"), Rec("group options")
+    old_group = Rec("group default-config-files")
+    groups = ([old_group] if had_group else []) + [g_user, g_opts]
+    attrs = {"_default_config_files": ["old.yaml"], "_action_groups": list(groups)}
+    if had_group:
+        attrs["_default_config_files_group"] = old_group
+    self = Rec("ArgumentParser", attrs=attrs)
+    self.methods["__setattr__"] = lambda c, s_, a, k: s_.attrs.__setitem__(a[0], a[1])
+    made = []
+    consts = {"os": Rec("module os", attrs={"PathLike": ClassRef("PathLike")}), "ArgumentGroup": Rec("class ArgumentGroup", methods={"__call__": lambda c, s_, a, k: (made.append((list(a), dict(k))), Rec("group default-config-files(new)"))[1]})}
+    calls = {"os.fspath": lambda c, a, k: a[0].attrs["fs"] if isinstance(a[0], Rec) else a[0], "delattr": lambda c, a, k: a[0].attrs.pop(a[1])}
+    return Setup(env={"self": self, "default_config_files": value}, calls=calls, consts=consts, data=dict(given=given, had_group=had_group, value=value, self_=self, g_user=g_user, g_opts=g_opts, old_group=old_group, made=made))
+
+
+def dcfs_post(ctx, st, result):
+    d = st.data
+    tag = f"[{d['given']},group-before={d['had_group']}]"
+    a = d["self_"].attrs
+    want = {"None": [], "empty-list": [], "list-of-str": ["a.yaml", "conf.d/*.yaml"], "list-with-a-PathLike": ["a.yaml", "etc/app.yaml"]}.get(d["given"])
+    ctx.oblige("post", "accepted=>None-or-a-list-of-str/PathLike" + tag, want is not None)
+    ctx.oblige("post", "the-patterns-are-stored-as-strings,in-the-order-given(None: no patterns)" + tag, a["_default_config_files"] == want)
+    groups = a["_action_groups"]
+    if want:
+        new = groups[0] if groups else None
+        ok = len(groups) == 3 and groups[1] is d["g_user"] and groups[2] is d["g_opts"] and a.get("_default_config_files_group") is new and (new is d["old_group"] if d["had_group"] else (len(d["made"]) == 1 and d["made"][0][0][0] is d["self_"]))
+        ctx.oblige("post", "with-patterns:exactly-one-help-group-for-them,first,the-other-groups-in-their-order(an existing one is kept, not duplicated)" + tag, ok)
+    else:
+        ctx.oblige("post", "without-patterns:no-such-help-group(an existing one is removed),the-other-groups-in-their-order" + tag,
+                   len(groups) == 2 and groups[0] is d["g_user"] and groups[1] is d["g_opts"] and "_default_config_files_group" not in a and not d["made"])
+
+
+def dcfs_raises(ctx, st, exc):
+    d = st.data
+    a = d["self_"].attrs
+    ctx.oblige("raises", f"refused=>ValueError-for-anything-but-None-or-a-list-of-str/PathLike;the-previous-patterns-and-groups-stay[{d['given']}]",
+               exc.cls == "ValueError" and d["given"] in ("a-single-str", "tuple-of-str", "list-with-an-int") and a["_default_config_files"] == ["old.yaml"] and len(a["_action_groups"]) == (3 if d["had_group"] else 2))
+
+
+def default_config_files_setter_unit(prop):
+    return Unit(prop, "jsonargparse._core:ArgumentParser.default_config_files", dcfs_setup, dcfs_post, dcfs_raises, expect_cover=("return", "raise:ValueError"), label="setter",
+                trusted=["os.fspath(p) is the string of a PathLike", "the group class builds an empty help group for the parser"])
+
+
+def eps_setup(ctx):
+    given = ["None(deprecated)", "True", "False", "str", "int"][ctx.choose(5, "value")]
+    value = {"None(deprecated)": None, "True": True, "False": False, "str": z3.String("prefix"), "int": 3}[given]
+    self = Rec("ArgumentParser", attrs={"prog": "tool.py", "_env_prefix": "OLD"})
+    self.methods["__setattr__"] = lambda c, s_, a, k: s_.attrs.__setitem__(a[0], a[1])
+    calls = {"deprecation_warning": lambda c, a, k: c.event("deprecation"), "os.path.splitext": lambda c, a, k: ("tool", ".py") if a[0] == "tool.py" else (a[0], "")}
+    consts = {"ArgumentParser": Rec("class ArgumentParser"), "env_prefix_property_none_message": "msg"}
+    return Setup(env={"self": self, "env_prefix": value}, calls=calls, consts=consts, data=dict(given=given, value=value, self_=self))
+
+
+def eps_post(ctx, st, result):
+    d = st.data
+    got = d["self_"].attrs["_env_prefix"]
+    want = {"None(deprecated)": False, "True": "tool", "False": False}.get(d["given"], d["value"])
+    ctx.oblige("post", f"the-prefix-is:the-string-given;True->the-program-name-without-extension;False(or the deprecated None)->False(no prefix)[{d['given']}]",
+               d["given"] != "int" and (got is want if d["given"] in ("str", "False", "None(deprecated)") else got == want))
+
+
+def eps_raises(ctx, st, exc):
+    d = st.data
+    ctx.oblige("raises", f"refused=>ValueError-for-a-value-that-is-neither-str-nor-bool;the-previous-prefix-stays[{d['given']}]", exc.cls == "ValueError" and d["given"] == "int" and d["self_"].attrs["_env_prefix"] == "OLD")
+
+
+def env_prefix_setter_unit(prop):
+    return Unit(prop, "jsonargparse._core:ArgumentParser.env_prefix", eps_setup, eps_post, eps_raises, expect_cover=("return", "raise:ValueError"), label="setter",
+                trusted=["os.path.splitext(prog)[0] is the program name without its extension", "the deprecation import is dropped by the extraction (a local `from ._deprecated import`)"])
+
+
+def gcf_setup(ctx):
+    has_default = ctx.choose(2, "__default_config__-present") == 1
+    state = ["absent", "None", "two-paths-one-None", "empty-list"][ctx.choose(4, "value-of-the-config-option")]
+    for n in ("ActionConfigFile", "_HelpAction"):
+        ctx.classes.add(n, ["Action"])
+    dflt, p1, p2 = Rec("Path(default config)"), Rec("Path(a.yaml)"), Rec("Path(b.yaml)")
+    store = {}
+    if has_default:
+        store["__default_config__"] = dflt
+    if state != "absent":
+        store["cfg"] = {"None": None, "two-paths-one-None": [p1, None, p2], "empty-list": []}[state]
+    store["other"] = [Rec("Path(not a config)")]
+    cfgns = Rec("Namespace", methods={"__contains__": lambda c, s_, a, k: a[0] in store, "__getitem__": lambda c, s_, a, k: store[a[0]]})
+    acts = [Rec("_HelpAction", attrs={"dest": "help"}), Rec("Action", attrs={"dest": "other"}), Rec("ActionConfigFile", attrs={"dest": "cfg"})]
+    self = Rec("ArgumentParser", attrs={"_actions": acts})
+    calls = {"filter_default_actions": lambda c, a, k: [x for x in a[0] if x.cls != "_HelpAction"]}
+    return Setup(env={"self": self, "cfg": cfgns}, calls=calls, consts={"ActionConfigFile": ClassRef("ActionConfigFile")}, data=dict(has_default=has_default, state=state, dflt=dflt, p1=p1, p2=p2))
+
+
+def gcf_post(ctx, st, result):
+    d = st.data
+    want = ([d["dflt"]] if d["has_default"] else []) + ([d["p1"], d["p2"]] if d["state"] == "two-paths-one-None" else [])
+    ctx.oblige("post", f"the-loaded-config-files:the-default-config-file-first,then-every-path-recorded-for-a-config-option(in order,None entries left out);values-of-other-options-never[default={d['has_default']},{d['state']}]",
+               isinstance(result, list) and len(result) == len(want) and all(x is y for x, y in zip(result, want)))
+
+
+def get_config_files_unit(prop):
+    return Unit(prop, "jsonargparse._core:ArgumentParser.get_config_files", gcf_setup, gcf_post, None, expect_cover=("return",),
+                trusted=["filter_default_actions drops the help action only", "cfg[key] / key in cfg by contract (C11)"])
+
+
+UNITS += [default_config_files_setter_unit("C04"), env_prefix_setter_unit("C04"), get_config_files_unit("C04")]
